@@ -152,4 +152,40 @@ pub fn run(r: &mut Report) {
             }
         }
     }
+    // two functionaries whose key ids share their first eight characters (the part a link file is named after): found by a
+    // birthday search over the free-text hash-algorithm label that is part of a key's description.  Authorisation goes by the
+    // FULL id: the functionary of one step never counts for the other, whoever's link file name it fits
+    {
+        use std::collections::HashMap;
+        use in_toto::crypto::PublicKey;
+        let (k2, k3) = (key(2), key(3));
+        let (raw2, raw3) = (k2.public().as_bytes().to_vec(), k3.public().as_bytes().to_vec());
+        let variant = |raw: &Vec<u8>, label: String| PublicKey::from_ed25519_with_keyid_hash_algorithms(raw.clone(), Some(vec![label])).unwrap();
+        let mut seen: HashMap<String, u32> = HashMap::new();
+        let budget = 260_000u32;
+        for i in 0..budget { seen.insert(variant(&raw2, format!("sha256-a{}", i)).key_id().prefix(), i); }
+        let mut found: Option<(PublicKey, PublicKey)> = None;
+        for j in 0..budget { let pb = variant(&raw3, format!("sha256-b{}", j)); if let Some(i) = seen.get(&pb.key_id().prefix()) { found = Some((variant(&raw2, format!("sha256-a{}", i)), pb)); break; } }
+        match found {
+            None => r.case("functionaries-sharing-a-short-id", json!({"labels_tried_per_key": budget}), "a pair of key descriptions with a common 8-character id prefix is found", "none found".into(), false),
+            Some((pa, pb)) => {
+                let relabel = |mb: &in_toto::models::Metablock, p: &PublicKey| -> serde_json::Value { let mut v = serde_json::to_value(mb).unwrap(); v["signatures"][0]["keyid"] = serde_json::to_value(p.key_id()).unwrap(); v };
+                let st = |name: &str, p: &PublicKey| in_toto::models::step::Step::new(name).threshold(1).add_key(p.key_id().clone());
+                let l = in_toto::models::LayoutMetadataBuilder::new().expires(chrono::Utc::now() + chrono::Duration::days(30))
+                    .add_step(st("build", &pa)).add_step(st("test", &pb)).add_key(pa.clone()).add_key(pb.clone()).build().unwrap();
+                let lay = signed_layout(&l, &[&owner]);
+                let prefix = pa.key_id().prefix();
+                for (id, build_signer, test_signer, expect) in [("each-step-by-its-own-functionary", 2usize, 3usize, true), ("build-signed-by-the-functionary-of-test", 3, 3, false), ("test-signed-by-the-functionary-of-build", 2, 2, false), ("both-swapped", 3, 2, false)] {
+                    let d = tmpdir();
+                    for (name, signer) in [("build", build_signer), ("test", test_signer)] {
+                        let (sk, p) = if signer == 2 { (&k2, &pa) } else { (&k3, &pb) };
+                        let mb = signed_link(&link(name, &[], &[("x", 1)]), &[sk]);
+                        std::fs::write(d.path().join(format!("{}.{}.link", name, prefix)), relabel(&mb, p).to_string()).unwrap();
+                    }
+                    let res = no_panic(|| in_toto_verify(&lay, owner_keys(&[&owner]), d.path().to_str().unwrap(), None).is_ok());
+                    r.case("functionaries-sharing-a-short-id", json!({"scenario": id, "shared_prefix": prefix, "ids_differ": pa.key_id() != pb.key_id()}), if expect { "Ok" } else { "Err" }, format!("{:?}", res), res == Ok(expect) && pa.key_id() != pb.key_id());
+                }
+            }
+        }
+    }
 }
